@@ -243,7 +243,7 @@ macro_rules! guard_ops {
 			"g_hash" => {
 				let mut h = std::collections::hash_map::DefaultHasher::new();
 				$g.hash(&mut h);
-				drop(h.finish());
+				let _ = h.finish();
 			}
 			"g_deref" => drop(format!("{:?}", &*$g)),
 			"g_as_ref" => drop(format!("{:?}", $g.as_ref())),
